@@ -19,8 +19,8 @@ CONSTANTS
   Clients = %(clients)s
   MaxEdits = %(edits)d
   MaxSignals = %(signals)d
-INVARIANTS Inv_C19_Atomic Inv_C19_Whole
-PROPERTIES Prop_C19_AllOrNothing Prop_C19_Live
+INVARIANTS Inv_C19_Atomic Inv_C19_Whole Inv_C19_Fresh
+PROPERTIES Prop_C19_AllOrNothing Prop_C19_Live Prop_C19_Converges
 CHECK_DEADLOCK FALSE
 """
 
@@ -214,10 +214,12 @@ def run_schedule(v, wd, r, nreloads, with_fifo, mode="auth"):
     for t in threads:
         t.start()
     log_seen = 0
+    fifo_done = False
     try:
         for k in range(nreloads):
             time.sleep(r.choice([0.01, 0.03]))
-            fifo = with_fifo and k == nreloads // 2 and not disk.bad
+            fifo = with_fifo and k >= nreloads // 2 and not disk.bad and not fifo_done
+            fifo_done = fifo_done or fifo
             what = disk.edit(r) if not fifo else "fifo"
             if fifo:
                 # a slow reload: the explicit zone file is a named pipe that delivers its (new) content only after a while
@@ -228,6 +230,9 @@ def run_schedule(v, wd, r, nreloads, with_fifo, mode="auth"):
 
                 def feed(text=text, p=disk.path("a")):
                     fd = os.open(p, os.O_WRONLY)          # blocks until the server opens the pipe
+                    # the server now holds the pipe: put the same content at the path as a regular file, so that the
+                    # second reload (below) does not wait on a pipe nobody feeds
+                    disk.put("a", text)
                     time.sleep(3.0)
                     os.write(fd, text.encode())
                     os.close(fd)
@@ -238,27 +243,56 @@ def run_schedule(v, wd, r, nreloads, with_fifo, mode="auth"):
                 events.append({"ev": "signal", "seq": s, "qid": 0, "req": [], "reply": {"present": False, "bytes": []}, "ok": False,
                                "disk": cid, "what": what})
             server.signal_reload()
+            if fifo:
+                # a second SIGUSR1 while the first reload is still loading, after a further (atomic, one-file) edit:
+                # the notification must not be lost - once the server is at rest the LAST signalled disk is in force
+                # (Reload!Inv_C19_Fresh).  The first reload may have read b.zone before or after this edit.
+                time.sleep(1.0)
+                disk.vb = disk.vb % 5 + 1
+                disk.put("b", c12.render_zone(rc.zone([], recs_b(disk.vb), auth=False)))
+                cid2 = disk.config_id()
+                s = stamp()
+                with lock:
+                    events.append({"ev": "signal", "seq": s, "qid": 0, "req": [], "reply": {"present": False, "bytes": []},
+                                   "ok": False, "disk": cid2, "what": "change_b during the slow reload"})
+                server.signal_reload()
+
+            def wait_done(limit):
+                nonlocal log_seen
+                deadline = time.time() + limit
+                while time.time() < deadline:
+                    new = server.log_text()[log_seen:]
+                    i1, i2 = new.find("done - success"), new.find("done - failure")
+                    if i1 >= 0 or i2 >= 0:
+                        ok_ = i1 >= 0 and (i2 < 0 or i1 < i2)
+                        log_seen += (i1 if ok_ else i2) + 10
+                        return ok_
+                    time.sleep(0.005)
+                return None
+
+            def note_done(ok_):
+                s_ = stamp()
+                with lock:
+                    events.append({"ev": "reload_done", "seq": s_, "qid": 0, "req": [], "reply": {"present": False, "bytes": []},
+                                   "ok": ok_, "disk": 0})
+
             # wait for the server's own report
-            deadline = time.time() + 15
-            ok = None
-            while time.time() < deadline:
-                text = server.log_text()
-                new = text[log_seen:]
-                i1, i2 = new.find("done - success"), new.find("done - failure")
-                if i1 >= 0 or i2 >= 0:
-                    ok = i1 >= 0 and (i2 < 0 or i1 < i2)
-                    log_seen += (i1 if ok else i2) + 10
-                    break
-                time.sleep(0.005)
+            ok = wait_done(15)
             if ok is None:
                 v.violation("a reload was never reported done", {"edit": what, "log_tail": server.log_text()[-2000:]})
                 break
-            s = stamp()
-            with lock:
-                events.append({"ev": "reload_done", "seq": s, "qid": 0, "req": [], "reply": {"present": False, "bytes": []}, "ok": ok,
-                               "disk": 0})
+            note_done(ok)
             if fifo:
-                os.remove(disk.path("a"))
+                ok2 = wait_done(8)
+                if ok2 is not None:
+                    note_done(ok2)
+                time.sleep(0.3)
+                s = stamp()
+                with lock:
+                    events.append({"ev": "rest", "seq": s, "qid": 0, "req": [], "reply": {"present": False, "bytes": []},
+                                   "ok": ok2 is not None, "disk": disk.config_id()})
+                time.sleep(0.3)
+            if fifo:
                 disk.put("a", c12.render_zone(zone_a(disk.va)))
         time.sleep(0.05)
     finally:
